@@ -82,3 +82,10 @@ CLAIMED['C06'] = dict(
     text='Proof per function of the exporter up to the segyio boundary: spec = reader axes, format from the stored binary header (IBM/IEEE kept, otherwise IBM with only the format word patched), '
          'all traces and headers in ordinal order with the decoded samples / regenerated headers, stored 3600-byte SEG-Y file header written verbatim. What segyio writes from that spec is assumed.',
     note='AX-SEGYIO-W assumed; get_trace per C02 contracts; found and fixed D35 (format word read from the wrong bytes)')
+CLAIMED['C12'] = dict(
+    category='exploration',
+    text='BOUNDED stand-in, not a proof: the real convert_to_adv_sgz is run on a grid of default-layout 2-bit files (quick 11 / thorough 20 shape x array-count x regularity cases) and the output is '
+         'compared with the source under the independent spec oracle and the real reader (conformance, every real voxel bitwise, axes, trace count, file headers, every trace header, hash). '
+         'Proved (contract on the real function): every unsupported input is refused with AssertionError before any output exists.',
+    note='bounded in cube shapes; the copying loops are outside the VC generator (out-of-range slice semantics, four nested symbolic loops); found and fixed D31, D32, D36',
+    technique='bounded stand-in: native execution of the real function on a stated grid against an independent spec oracle; refusal part by contract + VCs (pyvc, z3)')
